@@ -24,14 +24,15 @@ func Since(t time.Time) time.Duration { return Now().Sub(t) }
 func Until(t time.Time) time.Duration { return t.Sub(Now()) }
 
 type Timer struct {
-	C *vchan.Chan[time.Time]
-	h *vrt.TimerHandle
+	C      *vchan.Chan[time.Time]
+	h      *vrt.TimerHandle
+	native *time.Timer // free-running fallback (no controlled execution active)
 }
 
 func AfterFunc(d time.Duration, f func()) *Timer {
 	x := vrt.Cur()
 	if x == nil {
-		panic("vtime.AfterFunc outside a controlled execution")
+		return &Timer{native: time.AfterFunc(d, f)}
 	}
 	return &Timer{h: x.AfterFunc(d, "AfterFunc", f)}
 }
@@ -47,6 +48,9 @@ func NewTimer(d time.Duration) *Timer {
 }
 
 func (t *Timer) Stop() bool {
+	if t.native != nil {
+		return t.native.Stop()
+	}
 	x := vrt.Cur()
 	if x == nil || x.Aborting() {
 		return false
@@ -55,6 +59,9 @@ func (t *Timer) Stop() bool {
 }
 
 func (t *Timer) Reset(d time.Duration) bool {
+	if t.native != nil {
+		return t.native.Reset(d)
+	}
 	x := vrt.Cur()
 	if x == nil || x.Aborting() {
 		return false
